@@ -762,7 +762,11 @@ def run_case(ctx, lines, keep, case):
                     for v, x in zip(pb.variables, x0):
                         lo, hi = v.bounds
                         clipped.append(min(max(x, lo if lo is not None else x), hi if hi is not None else x))
-                    if clipped != x0 and vec_close(clipped, x0):
+                    on_bound = any((lo is not None and vec_close([x], [lo])) or (hi is not None and vec_close([x], [hi]))
+                                   for (lo, hi), x in zip([v.bounds for v in pb.variables], x0))
+                    if vec_close(clipped, x0) and (clipped != x0 or on_bound):
+                        # (x0 exactly on a bound: differential_evolution's own normalisation (x - mean)/range + 0.5
+                        #  rounds it to 1 + 2^-52 and refuses it as well)
                         fk = 'x0-rounding-outside-bounds'
                 ctx.fail('optimize() with valid arguments returns', case,
                          {'step': si, 'error': type(err).__name__ + ': ' + str(err)[:200], 'x0': x0,
